@@ -3,6 +3,7 @@ package rag
 import (
 	"strings"
 	"unicode"
+	"unicode/utf8"
 )
 
 // OverlapStrategy defines how overlap between chunks is computed
@@ -150,18 +151,29 @@ func (og *OverlapGenerator) generateCharacterOverlap(text string) string {
 		return text
 	}
 
-	// Start from target position
+	// Start from target position, but not inside a multi-byte character
 	start := len(text) - og.config.Size
+	for start < len(text) && !utf8.RuneStart(text[start]) {
+		start++
+	}
 
 	// If preserving words, find the next word boundary
 	if og.config.PreserveWords {
 		// Move forward to find start of a word
-		for start < len(text) && !unicode.IsSpace(rune(text[start])) {
-			start++
+		for start < len(text) {
+			r, size := utf8.DecodeRuneInString(text[start:])
+			if unicode.IsSpace(r) {
+				break
+			}
+			start += size
 		}
 		// Skip whitespace
-		for start < len(text) && unicode.IsSpace(rune(text[start])) {
-			start++
+		for start < len(text) {
+			r, size := utf8.DecodeRuneInString(text[start:])
+			if !unicode.IsSpace(r) {
+				break
+			}
+			start += size
 		}
 	}
 
@@ -243,7 +255,7 @@ func (og *OverlapGenerator) truncateOverlap(overlap string) string {
 	sentences := splitIntoSentencesWithPositions(overlap)
 	if len(sentences) == 0 {
 		// No sentences, truncate at word boundary
-		return og.generateCharacterOverlap(overlap[len(overlap)-og.config.MaxOverlap:])
+		return og.generateCharacterOverlap(tailAtRuneBoundary(overlap, og.config.MaxOverlap))
 	}
 
 	// Find how many of the last sentences fit within MaxOverlap
@@ -263,7 +275,7 @@ func (og *OverlapGenerator) truncateOverlap(overlap string) string {
 
 	if first == len(sentences) {
 		// Last sentence exceeds max, truncate it
-		return og.generateCharacterOverlap(overlap[len(overlap)-og.config.MaxOverlap:])
+		return og.generateCharacterOverlap(tailAtRuneBoundary(overlap, og.config.MaxOverlap))
 	}
 
 	var result strings.Builder
@@ -275,6 +287,19 @@ func (og *OverlapGenerator) truncateOverlap(overlap string) string {
 	}
 
 	return result.String()
+}
+
+// tailAtRuneBoundary returns the longest suffix of s that is at most n bytes
+// long and does not start inside a multi-byte character
+func tailAtRuneBoundary(s string, n int) string {
+	if n >= len(s) {
+		return s
+	}
+	start := len(s) - n
+	for start < len(s) && !utf8.RuneStart(s[start]) {
+		start++
+	}
+	return s[start:]
 }
 
 // sentenceWithPosition holds a sentence and its position in the original text
